@@ -4,6 +4,11 @@ Metamorphic monitor: for one scene and pose set, mjw.collision is run under ever
 SAP_SEGMENTED) x every broadphase filter mask (0..15) on the same Data; the contact multiset of every world (all contact
 fields, bitwise after canonical sorting) must equal the one of the all-pairs broadphase without any filter, which sends
 every candidate pair to the (shared) narrowphase.
+
+Scene families: random crowds, pairs steered to the distances where a bounding-volume filter decides, articulated trees,
+and 'sapband' scenes where the sweep itself decides (pairs separated along the sweep axis whose projected intervals only
+overlap thanks to margin or gap, with geoms of other pairs sorted between them; explicit pairs; per-world rows of the
+batched geom fields the broadphase reads).
 """
 
 import inspect
@@ -30,8 +35,10 @@ RULE = (
   "just outside; some pairs explicit with own margin/gap (half of those between geoms without any), one excluded, optional far plane; "
   "1 in 4 multi-world sapband cases carries two rows of geom_size/_rbound/_aabb/_margin/_gap and pair_margin/_gap (world w reads "
   "row w%2, poses steered per row). "
-  "nworld in {1,2,5,16} with different poses per world; sleep flag on with random trees marked asleep in most of the sleep cases. "
-  "48 (broadphase, filter) configurations per case. Non-trivial: baseline has >=1 contact and >=1 candidate pair is rejected by "
+  "nworld in {1,2,5,16} with different poses per world; sleep flag on with random trees marked asleep in most of the sleep cases; those also run the "
+  "two-pass protocol of step() (collision with the trees asleep, then all awake with collision(awake_prev=...) appending the skipped "
+  "pairs) under all three broadphases x masks {0,15}, compared with the two-pass result of NXN/no filter. "
+  "48 (broadphase, filter) configurations per case (quick tier: 18 for the sleep and the batched cases, masks 0,1,2,4,8,15). Non-trivial: baseline has >=1 contact and >=1 candidate pair is rejected by "
   "some filter (fewer broadphase pairs than the unfiltered run); distinct by hash(xml, poses)."
 )
 ASSUMPTIONS = [
@@ -42,7 +49,7 @@ ASSUMPTIONS = [
   "the sweep axis is the literal in collision_driver.sap_broadphase (parsed from its source, else (0.5935,0.7790,0.1235)); it only steers the sapband poses and the coverage counters, never a verdict",
   "per-world rows of batched Model fields are written into the Model returned by put_model (world w reads row w % 2); each row is a model compiled by MuJoCo, so rbound/aabb are MuJoCo's own",
 ]
-BUDGET = {"quick": 300, "thorough": 2400}
+BUDGET = {"quick": 400, "thorough": 2400}
 
 FIELDS = ("geom", "dist", "pos", "frame", "includemargin", "friction", "solref", "solreffriction", "solimp", "dim", "type")
 BITS = {1: "PLANE", 2: "SPHERE", 4: "AABB", 8: "OBB"}
@@ -63,9 +70,14 @@ def cases(tier, seed):
     sleep = (i // 5) % 7 in (4, 5)
     case = {"id": f"{kind}{seed}_{i}", "kind": kind, "nworld": nworld, "sleep": sleep, "size": (6, 10, 14)[i % 3], "seed": seed * 1000003 + i, "weight": 1 + nworld // 4}
     if kind == "sapband" and nworld > 1 and i % 10 == 9:
+      nworld = case["nworld"] = max(nworld, 5)
       # two rows of geom_size/_rbound/_aabb/_margin/_gap and pair_margin/_gap (world w reads row w % 2); one kernel
       # specialisation per leading size, so always 2 rows and never together with the sleep variants
       case["batched"], case["sleep"] = True, False
+    if tier == "quick" and (case["sleep"] or case.get("batched")):
+      # the sleep and the batched variants are separate specialisations of every (broadphase, mask) kernel: on the quick
+      # tier they see no filter, each single filter and all filters; all 16 masks on the thorough tier
+      case["masks"] = [0, 1, 2, 4, 8, 15]
     out.append(case)
   return out
 
@@ -229,26 +241,32 @@ def make_sapband(case, rng, flags):
   opts = {"flags": flags, "p_margin": 0.0, "p_params": 0.1, "plane": plane, "plane_tilt": False, "pairs": prs, "excludes": exs}
   xml, info = _col.build_scene(rng, bt, opts)
   xmls = [xml]
+  # batched cases: per field one row is lean (small sizes / no margin / no gap; mostly row 0) and the other generous, so
+  # that a world reading the wrong row of one field loses the term its contacts depend on
+  lean = {k: (int(rng.random() > 0.7) if case.get("batched") else -1) for k in ("size", "margin", "gap")}
   if case.get("batched"):
     root = ET.fromstring(xml)
     for g in root.iter("geom"):
       if g.get("type") in ("sphere", "capsule", "ellipsoid", "cylinder", "box"):
         s0 = np.array([float(v) for v in g.get("size").split()])
-        g.set("size", _col._f(s0 * rng.uniform(0.6, 1.5)))
+        g.set("size", _col._f(s0 * (rng.uniform(1.1, 1.6) if lean["size"] == 0 else rng.uniform(0.6, 0.9))))
     xmls.append(ET.tostring(root, encoding="unicode"))
   native_on = "nativeccd" not in flags
   BOX = int(mujoco.mjtGeom.mjGEOM_BOX)
   variants = []
-  margin_scene = rng.random() < 0.3  # mostly gap-free geoms with wide margins: the margin alone decides the sweep
+  margin_scene = rng.random() < 0.4  # mostly gap-free geoms with wide margins: the margin alone decides the sweep
   bare = [g for p in prs if rng.random() < 0.5 for g in p]  # explicit pairs between geoms without margin/gap of their own
-  for x in xmls:
+  for vi, x in enumerate(xmls):
     mjm = gen.compile_xml(x)
     if mjm is None:
       return None
     for g in range(mjm.ngeom):
       t = int(mjm.geom_type[g])
       mg = 0.0 if rng.random() < 0.3 else rng.uniform(0.0, 0.15 if margin_scene else 0.08)
-      gp = 0.0 if rng.random() < (0.8 if margin_scene else 0.25) else rng.uniform(0.02, 0.3)
+      gp = 0.0 if rng.random() < (0.9 if margin_scene else 0.25) else rng.uniform(0.02, 0.3)
+      if len(xmls) > 1:
+        mg = 0.0 if lean["margin"] == vi else rng.uniform(0.02, 0.1)
+        gp = 0.0 if lean["gap"] == vi else rng.uniform(0.08, 0.3)
       if mujoco.mj_id2name(mjm, mujoco.mjtObj.mjOBJ_GEOM, g) in [f"g{b}" for b in bare]:
         mg = gp = 0.0
       if t == BOX and native_on:
@@ -429,7 +447,7 @@ def physical_diff(mjm, a, b, xpos):
 def run_case(case):
   import mujoco_warp as mjw
   import warp as wp
-  from mujoco_warp._src.types import BroadphaseType
+  from mujoco_warp._src.types import BroadphaseType, SleepState
 
   rec = core.Rec(case)
   rng = np.random.default_rng(case["seed"])
@@ -463,15 +481,16 @@ def run_case(case):
   wp.copy(d.qpos, wp.array(np.stack([np.asarray(q, dtype=np.float32) for q in qs]), dtype=float))
   mjw.kinematics(m, d)
   nasleep = 0
-  if case["sleep"] and rng.random() < 0.7:
-    awake = mw.npy(d.body_awake).copy()
+  if case["sleep"] and rng.random() < 0.85:
+    awake0 = mw.npy(d.body_awake).copy()
+    awake = awake0.copy()
     for w in range(nworld):
       for r in range(1, mjm.nbody):
-        if mjm.body_parentid[r] == 0 and mjm.body_mocapid[r] < 0 and mjm.body_dofnum[r] > 0 and rng.random() < 0.4:
+        if mjm.body_parentid[r] == 0 and mjm.body_mocapid[r] < 0 and mjm.body_dofnum[r] > 0 and rng.random() < 0.55:
           # whole kinematic tree rooted at r
           for b in range(r, mjm.nbody):
             if mjm.body_rootid[b] == r:
-              awake[w, b] = 1  # SleepState.ASLEEP
+              awake[w, b] = int(SleepState.ASLEEP)  # 0 (mjS_ASLEEP); dynamic bodies start as AWAKE = 1
               nasleep += 1
     wp.copy(d.body_awake, wp.array(awake, dtype=int))
 
@@ -485,6 +504,20 @@ def run_case(case):
     return _col.world_contacts(d), ncoll, ok
 
   xpos = np.array(mw.npy(d.geom_xpos), dtype=np.float64)
+
+  def compare(got, ref, ref_c, key, bad, swapped, tally):
+    for w in range(nworld):
+      cw, gw = canon(got[w])
+      if all(cw[k] == ref_c[w][0][k] for k in FIELDS):
+        rec.count(tally + "world_configs_bit_equal")
+        continue
+      kind, detail = physical_diff(variants[w % len(variants)], ref[w], got[w], xpos[w])
+      if kind is None:
+        rec.count(tally + "world_configs_equal_up_to_geom_order")
+        swapped.setdefault(key, (w, detail))
+      else:
+        bad.setdefault(kind, {}).setdefault(key, (w, kind, detail))  # first world per (kind, configuration)
+
   base, ncoll0, ok = run(0, 0)
   if not ok:
     rec.inconcl("capacity overflow in the baseline run")
@@ -492,10 +525,11 @@ def run_case(case):
   base_c = [canon(c) for c in base]
   ncon = sum(len(c["dist"]) for c in base)
   min_ncoll = ncoll0
+  masks = [int(x) for x in case.get("masks") or range(16)]
   bad = {}  # (bp, mask) -> (world, kind, detail)
   swapped = {}
   for bp in (0, 1, 2):
-    for mask in range(16):
+    for mask in masks:
       if bp == 0 and mask == 0:
         continue
       got, ncoll, ok = run(bp, mask)
@@ -505,17 +539,8 @@ def run_case(case):
       min_ncoll = min(min_ncoll, ncoll)
       rec.check()
       rec.cover(f"configs:{BP[bp]}", 1)
-      for w in range(nworld):
-        cw, gw = canon(got[w])
-        if all(cw[k] == base_c[w][0][k] for k in FIELDS):
-          rec.count("world_configs_bit_equal")
-          continue
-        kind, detail = physical_diff(variants[w % len(variants)], base[w], got[w], xpos[w])
-        if kind is None:
-          rec.count("world_configs_equal_up_to_geom_order")
-          swapped.setdefault((bp, mask), (w, detail))
-        else:
-          bad.setdefault(kind, {}).setdefault((bp, mask), (w, kind, detail))  # first world per (kind, configuration)
+      compare(got, base, base_c, (bp, mask), bad, swapped, "")
+
   def culprit_of(table):
     """A broadphase type alone, one filter bit alone, or only a combination; plus a representative configuration."""
     culprit = None
@@ -539,40 +564,88 @@ def run_case(case):
         break
     return culprit, key
 
-  if swapped:
-    culprit, key = culprit_of(swapped)
-    if all(k[0] > 0 for k in swapped):
-      culprit = "SAP"  # only the sweep-and-prune broadphases emit pairs in projection order
-    w, detail = swapped[key]
-    rec.viol(
-      f"{culprit}:geom-order-swapped",
-      f"world {w} under broadphase {BP[key[0]]} filter mask {key[1]}: same physical contacts as NXN/no-filter but contact.geom order (and normal sign) reversed for "
-      f"same-type pairs {detail[:6]}; {len(swapped)} of 47 configurations affected",
-    )
-  kinds = []
-  for kind, table in sorted(bad.items()):
-    if kind == "missing-pair:explicit-pair-margin":
-      # two places use the geoms' margin+gap where the explicit pair's own apply: the four bounding-volume filters
-      # (any mask != 0, any broadphase) and the sweep's projected intervals (SAP, already without a filter)
-      flt = {k: v for k, v in table.items() if k[1] != 0}
-      sap = {k: v for k, v in table.items() if k[1] == 0}
-      if flt:
-        kinds.append((kind, flt, "filter:missing-pair:explicit-pair-margin"))
-      if sap:
-        kinds.append((kind, sap, "SAP:missing-pair:explicit-pair-margin"))
+  def report(bad, swapped, nconf, prefix, what):
+    if swapped:
+      culprit, key = culprit_of(swapped)
+      if all(k[0] > 0 for k in swapped):
+        culprit = "SAP"  # only the sweep-and-prune broadphases emit pairs in projection order
+      w, detail = swapped[key]
+      rec.viol(
+        f"{culprit}:geom-order-swapped",
+        f"{what}world {w} under broadphase {BP[key[0]]} filter mask {key[1]}: same physical contacts as NXN/no-filter but contact.geom order (and normal sign) reversed for "
+        f"same-type pairs {detail[:6]}; {len(swapped)} of {nconf} configurations affected",
+      )
+    kinds = []
+    for kind, table in sorted(bad.items()):
+      if kind == "missing-pair:explicit-pair-margin":
+        # two places use the geoms' margin+gap where the explicit pair's own apply: the four bounding-volume filters
+        # (any mask != 0, any broadphase) and the sweep's projected intervals (SAP, already without a filter)
+        flt = {k: v for k, v in table.items() if k[1] != 0}
+        sap = {k: v for k, v in table.items() if k[1] == 0}
+        if flt:
+          kinds.append((kind, flt, "filter:missing-pair:explicit-pair-margin"))
+        if sap:
+          kinds.append((kind, sap, "SAP:missing-pair:explicit-pair-margin"))
+      else:
+        kinds.append((kind, table, None))
+    for kind, table, sig in kinds:
+      culprit, key = culprit_of(table)
+      if kind == "swapped-pair-contact-differs" and all(k[0] > 0 for k in table):
+        culprit = "SAP"
+        prefix = ""  # consequence of the geom order swap, whichever pass emitted the pair
+      sig = sig or f"{prefix}{culprit}:{kind}"
+      w, _, detail = table[key]
+      rec.viol(
+        sig,
+        f"{what}contacts of world {w} under broadphase {BP[key[0]]} filter mask {key[1]} differ from NXN/no-filter: {detail}; {len(table)} of {nconf} configurations differ: {sorted(table)[:8]}",
+        configs=[list(k) for k in sorted(table)],
+      )
+
+  report(bad, swapped, 3 * len(masks) - 1, "", "")
+
+  if nasleep:
+    # incremental sleeping pass (step() runs it after the post-collision wake): pass 1 with the marked trees asleep, then
+    # every body awake again and collision(awake_prev=...) appends the pairs pass 1 skipped. Same protocol under every
+    # broadphase (no filter / all filters); the final contact multiset must not depend on the broadphase either
+    asleep_arr, awake_arr = wp.array(awake, dtype=int), wp.array(awake0, dtype=int)
+
+    def run2(bp, mask):
+      m.opt.broadphase = BroadphaseType(bp)
+      m.opt.broadphase_filter = int(mask)
+      d.overflow.zero_()
+      wp.copy(d.body_awake, asleep_arr)
+      mjw.collision(m, d)
+      n1 = int(mw.npy(d.nacon)[0])
+      ok = not np.any(mw.npy(d.overflow))
+      prev = wp.clone(d.body_awake)
+      wp.copy(d.body_awake, awake_arr)
+      mjw.collision(m, d, awake_prev=prev)
+      nacon = int(mw.npy(d.nacon)[0])
+      ok = ok and not np.any(mw.npy(d.overflow)) and nacon <= d.naconmax
+      return _col.world_contacts(d), nacon - n1, ok
+
+    base2, added, ok = run2(0, 0)
+    if not ok:
+      rec.inconcl("capacity overflow in the two-pass baseline run")
     else:
-      kinds.append((kind, table, None))
-  for kind, table, sig in kinds:
-    culprit, key = culprit_of(table)
-    if kind == "swapped-pair-contact-differs" and all(k[0] > 0 for k in table):
-      culprit = "SAP"
-    sig = sig or f"{culprit}:{kind}"
-    w, _, detail = table[key]
-    rec.viol(
-      sig,
-      f"contacts of world {w} under broadphase {BP[key[0]]} filter mask {key[1]} differ from NXN/no-filter: {detail}; {len(table)} of 47 configurations differ: {sorted(table)[:8]}",
-      configs=[list(k) for k in sorted(table)],
-    )
+      base2_c = [canon(c) for c in base2]
+      bad2, swapped2 = {}, {}
+      for bp in (0, 1, 2):
+        for mask in (0, 15):
+          if bp == 0 and mask == 0:
+            continue
+          got, _, ok = run2(bp, mask)
+          if not ok:
+            rec.inconcl(f"capacity overflow in the two-pass run under {BP[bp]} mask {mask}")
+            continue
+          rec.check()
+          rec.cover("incremental:configs", 1)
+          compare(got, base2, base2_c, (bp, mask), bad2, swapped2, "incremental:")
+      rec.cover("incremental:contacts_added_by_second_pass", added)
+      report(bad2, swapped2, 5, "incremental-pass:", "two-pass collision (asleep, then awake with awake_prev): ")
+    wp.copy(d.body_awake, asleep_arr)
+    d.overflow.zero_()
+
   if extra:
     # what the steered pairs of the sapband family exercised: a pair counts when the baseline reports a contact for it
     # (so dropping it is observable); "overlap_by" names the term of the projected interval radius
@@ -630,6 +703,8 @@ def requirements(agg, tier):
       unmet.append(f"sapband family: {name} = {cov.get(name, 0)} < {least}")
   if cov.get("bodies_marked_asleep", 0) < 5:
     unmet.append("fewer than 5 sleeping bodies across sleep cases")
+  if cov.get("incremental:configs", 0) < 10 or cov.get("incremental:contacts_added_by_second_pass", 0) < 3:
+    unmet.append(f"incremental sleeping pass: {cov.get('incremental:configs', 0)} configurations (<10) or {cov.get('incremental:contacts_added_by_second_pass', 0)} contacts added by the second pass (<3)")
   if cov.get("baseline_contacts", 0) < 200:
     unmet.append("fewer than 200 baseline contacts")
   if cov.get("pairs_rejected_by_filters", 0) < 50:
